@@ -747,7 +747,8 @@ Definition sem_parse_sk (sk : list pstep) (t : tables) (input : dyn) : option Z 
 Inductive enc_skel := EncJSONOfString | EncBytesOfString | EncString | EncOpaque (what : string).
    (* return json.Marshal(e.String()) | return []byte(e.String()), nil | return e.String(), nil *)
 Inductive tbl_skel := TblNames (over : vsrc) | TblOpaque (what : string).        (* one entry per value of the list *)
-Inductive val_skel := ValCloneOfTable | ValOpaque (what : string).               (* return slices.Clone(_TValues) *)
+Inductive val_skel := ValCloneOfTable | ValAliasOfTable | ValOpaque (what : string).
+   (* return slices.Clone(_TValues)  |  return _TValues / _TValues[:n:n]: the caller gets the table itself *)
 Inductive str_skel := StrSwitch (over : vsrc) (pre suf : string) | StrOpaque (what : string).
    (* switch e { case Name: return "Name" … default: return fmt.Sprintf(pre ++ T ++ suf, e) } *)
 Inductive mem_skel := MemBinarySearch | MemLinear | MemOpaque (what : string).   (* slices.BinarySearch | for … if v == e *)
@@ -823,7 +824,7 @@ Definition text_attempts_sk (k : skels) (t : tables) (v : tview) : list dyn := s
 
 Definition sem_values_sk (k : skels) (t : tables) : list Z :=
   match sk_values k, sk_table k with
-  | ValCloneOfTable, TblNames vs => map g_z (vs_list t vs)
+  | (ValCloneOfTable | ValAliasOfTable), TblNames vs => map g_z (vs_list t vs)
   | _, _ => []
   end.
 Definition sem_stringvalues_sk (k : skels) (t : tables) : list string :=
@@ -843,12 +844,37 @@ Definition sem_member (m : mem_skel) (table : list Z) (e : Z) : bool :=
   | MemLinear => existsb (fun v => Z.eqb v e) table
   | MemOpaque _ => false
   end.
-Definition sem_isvalid_sk (k : skels) (t : tables) (e : Z) : bool :=
+(* IsValid reads the package-level value table *)
+Definition sem_isvalid_tbl (k : skels) (t : tables) (table : list Z) (e : Z) : bool :=
   match sk_isvalid k with
   | IvThreshold vs n above below =>
-      sem_member (if Nat.ltb n (length (vs_list t vs)) then above else below) (sem_values_sk k t) e
+      sem_member (if Nat.ltb n (length (vs_list t vs)) then above else below) table e
   | IvOpaque _ => false
   end.
+Definition sem_isvalid_sk (k : skels) (t : tables) (e : Z) : bool := sem_isvalid_tbl k t (sem_values_sk k t) e.
+
+(* ---- histories: what callers did with earlier results.  The generated API hands out slices (Values(),
+   StringValues()); a caller may WRITE into them.  With `slices.Clone` / a fresh composite literal such writes
+   touch the caller's copy only; if Values() returns the table itself (ValAliasOfTable) they land in the table
+   that later Values() and IsValid() calls read. *)
+Inductive hist_ev :=
+| HWriteValues (i : nat) (x : Z)                  (* vs := T.Values(); vs[i] = x *)
+| HWriteStringValues (i : nat) (s : string).      (* sv := T.StringValues(); sv[i] = s *)
+Fixpoint upd {A} (l : list A) (i : nat) (x : A) : list A :=
+  match l, i with
+  | [], _ => []
+  | _ :: r, O => x :: r
+  | y :: r, S j => y :: upd r j x
+  end.
+Definition table_after (k : skels) (table : list Z) (h : list hist_ev) : list Z :=
+  fold_left (fun tb ev => match ev, sk_values k with
+                          | HWriteValues i x, ValAliasOfTable => upd tb i x
+                          | _, _ => tb
+                          end) h table.
+(* the same functions called after a history *)
+Definition sem_values_hist (k : skels) (t : tables) (h : list hist_ev) : list Z := table_after k (sem_values_sk k t) h.
+Definition sem_isvalid_hist (k : skels) (t : tables) (h : list hist_ev) (e : Z) : bool :=
+  sem_isvalid_tbl k t (table_after k (sem_values_sk k t) h) e.
 Definition sem_accessor_sk (k : skels) (c : column) (e : Z) : payload :=
   match sk_accessor k with
   | AccSwitchRowsElseZero => sem_accessor c e
